@@ -597,6 +597,13 @@ fn run_history(args: &Args, id: u64, seed: u64, n_ops: u64, slash: bool, readd: 
         ("create", c.clone()), ("link", c.clone()), ("sync", c.clone()), ("sync", c.clone()), ("repo", c.clone()), ("repo", a.clone()),
     ];
     let mut script: std::collections::VecDeque<(String, String)> = setup.into_iter().map(|(k, v)| (k.to_string(), v)).collect();
+    // The parent of b and c loses everything it holds (it drops its own parent): the answer to the next list query of
+    // b and c is a *successful, empty* class list after a non-empty one. Then everything is restored.
+    let undercut_follow = |script: &mut std::collections::VecDeque<(String, String)>| {
+        for (k, w) in [("sync", &b), ("sync", &c), ("sync", &b), ("restart", &a), ("link", &a), ("sync", &a), ("sync", &a), ("sync", &a),
+                       ("sync", &b), ("sync", &b), ("sync", &c), ("sync", &c), ("repo", &a)] { script.push_back((k.to_string(), w.clone())); }
+    };
+    if id % 4 == 1 { script.push_back(("undercut".into(), a.clone())); undercut_follow(&mut script); }
     let mut done = 0;
     let mut n_inactive = 0;
     while done < n_ops || !script.is_empty() {
@@ -606,9 +613,9 @@ fn run_history(args: &Args, id: u64, seed: u64, n_ops: u64, slash: bool, readd: 
                 done += 1;
                 let leaf = if rng.chance(50) { b.clone() } else { c.clone() };
                 let any = match rng.below(4) { 0 => a.clone(), 1 => b.clone(), 2 => c.clone(), _ => leaf.clone() };
-                let k = ["sync", "repo", "child_remove", "child_readd", "suspend", "roll_init", "roll_activate", "entitle", "restart", "parent_remove", "delete", "roa", "pub_remove", "pub_readd", "republish", "inactive"]
-                    [rng.weighted(&[26, 18, 3, 4, 4, 4, 4, 6, 6, 2, 2, 8, 2, if readd { 4 } else { 0 }, 3, if n_inactive < 2 { 3 } else { 0 }])];
-                let who = match k { "child_remove" | "child_readd" | "suspend" | "entitle" | "parent_remove" | "delete" => leaf, "repo" if rng.chance(8) => "ta".to_string(), _ => any };
+                let k = ["sync", "repo", "child_remove", "child_readd", "suspend", "roll_init", "roll_activate", "entitle", "restart", "parent_remove", "delete", "roa", "pub_remove", "pub_readd", "republish", "inactive", "undercut"]
+                    [rng.weighted(&[26, 18, 3, 4, 4, 4, 4, 6, 6, 2, 2, 8, 2, if readd { 4 } else { 0 }, 3, if n_inactive < 2 { 3 } else { 0 }, 2])];
+                let who = match k { "child_remove" | "child_readd" | "suspend" | "entitle" | "parent_remove" | "delete" => leaf, "undercut" => a.clone(), "repo" if rng.chance(8) => "ta".to_string(), _ => any };
                 (k.to_string(), who)
             }
         };
@@ -645,7 +652,7 @@ fn run_history(args: &Args, id: u64, seed: u64, n_ops: u64, slash: bool, readd: 
                 h.sys = None;
                 h.sys = Some(open_sys(h.opts.clone()));
                 let mut s = plain("restart", json!({"op": "restart"})); s.ops.push("ORestart".into()); s }
-            "parent_remove" => h.step_parent_remove(&who),
+            "parent_remove" | "undercut" => h.step_parent_remove(&who),
             "delete" => h.step_delete_ca(&who),
             "roa" => { let m = h.ent.get(&who).copied().unwrap_or(1); let bits: Vec<u32> = (0..8).filter(|i| m & (1 << i) != 0).collect();
                 let list = h.roas.entry(who.clone()).or_default();
@@ -687,6 +694,7 @@ fn run_history(args: &Args, id: u64, seed: u64, n_ops: u64, slash: bool, readd: 
         // publisher is gone publishes, a key roll or an entitlement change is followed through
         match kind.as_str() {
             "child_remove" | "suspend" | "entitle" | "roll_init" | "roll_activate" if script.is_empty() => { script.push_back(("sync".into(), who.clone())); script.push_back(("sync".into(), who.clone())); }
+            "undercut" if script.is_empty() => undercut_follow(&mut script),
             "inactive" if script.is_empty() => { script.push_back(("sync".into(), if rng.chance(50) { b.clone() } else { c.clone() })); }
             "pub_remove" | "pub_readd" | "roa" if script.is_empty() => { script.push_back(("repo".into(), who.clone())); }
             // a CA created again under the same handle whose very first exchange with the parent is refused
